@@ -127,6 +127,14 @@ def catalogue():
     add('neg_op', lambda x: -x, [(V, 'R')], ['unary'])
     for r, dom in [(2, 'R'), (3, 'R'), (0, 'R'), (1, 'R'), (-1, 'nz'), (-2, 'nz'), (2.5, 'pos'), (0.5, 'pos'), (-1.5, 'pos'), (np.int64(3), 'R')]:
         add('pow_%s%s' % ('np' if isinstance(r, np.integer) else '', r), (lambda r: lambda x: x ** r)(r), [(V, dom)], ['unary', 'pow'])
+    # integer powers at base points with exact zeros (polynomials are smooth there)
+    for r in (1, 2, 3, np.int64(1), np.int64(2), np.int64(4)):
+        add('pow_zero_base_%s%s' % ('np' if isinstance(r, np.integer) else '', int(r)), (lambda r: lambda x: x ** r)(r), [(V, 'Rzero')], ['unary', 'pow', 'zero-base'])
+    add('square_zero_base', lambda x: A.square(x) + x * x, [(V, 'Rzero')], ['unary', 'zero-base'])
+    # elementwise programs that are also replayed with complex values (C05)
+    add('real_imag_of_input', lambda x: A.real(x) * 1.5 + A.imag(x) * 0.5, [(V, 'R')], ['cplx_replay', 'nonunique'])     # imag of a real value: only meaningful for the C05 complex replays
+    add('cplx:exp_sin_mul', lambda x: A.exp(0.3 * x) * A.sin(x) + x * x, [(V, 'R')], ['cplx_replay'])
+    add('cplx:real_of_product', lambda x: A.real(x * x) + 2.0 * A.real(A.exp(0.2 * x)), [(V, 'R')], ['cplx_replay'])
     # --- binary arithmetic, broadcasting, constants on either side
     for nm, op in [('add', lambda a, b: a + b), ('sub', lambda a, b: a - b), ('mul', lambda a, b: a * b), ('div', lambda a, b: a / b)]:
         dd = 'nz' if nm == 'div' else 'R'
@@ -143,6 +151,9 @@ def catalogue():
         add(nm + ':const_left_array', (lambda op, c: lambda x: op(c, x))(op, c), [(V, dd)], ['binary', 'const'])
         add(nm + ':const_left_array_bcast', (lambda op, c: lambda x: op(c, x))(op, C2), [(V, dd)], ['binary', 'const', 'bcast'])
         add(nm + ':const_function_left', (lambda op, c: lambda x: op(_const_like(x, c), x))(op, c), [(V, dd)], ['binary', 'const', 'constnode'])
+        add(nm + ':const_function_left_bcast', (lambda op, c: lambda x: op(_const_like(x, c), x))(op, C2), [(V, dd)], ['binary', 'const', 'constnode', 'bcast'])
+        add(nm + ':const_function_right_bcast', (lambda op, c: lambda x: op(x, _const_like(x, c)))(op, C2 + 4.0), [(V, 'R')], ['binary', 'const', 'constnode', 'bcast'])
+        add(nm + ':const_function_left_scalar_x', (lambda op, c: lambda x: op(_const_like(x, c), x))(op, c), [(S, dd)], ['binary', 'const', 'constnode', 'bcast'])
     # --- indexing, views, transposes, reshapes
     for nm, f, shp in [('x[1]', lambda x: x[1], V), ('x[-1]', lambda x: x[-1], V), ('x[1:]', lambda x: x[1:], V), ('x[::2]', lambda x: x[::2], V),
                        ('x[::-1]', lambda x: x[::-1], V), ('X[:,1]', lambda X: X[:, 1], M), ('X[0]', lambda X: X[0], M), ('X[...,0]', lambda X: X[..., 0], M),
@@ -194,6 +205,8 @@ def catalogue():
     add('diag:tall', lambda X: A.diag(X) * np.array([1., -2.]), [((3, 2), 'R')], ['linalg'])
     for u in 'FLU':
         add('symvec:' + u, (lambda u: lambda X: A.symvec(X + X.T, u))(u), [(M, 'R')], ['linalg'])
+        add('symvec:nonsymmetric:' + u, (lambda u: lambda X: A.symvec(X, u))(u), [(M, 'R')], ['linalg'])
+        add('symvec:nonsymmetric:kw:' + u, (lambda u: lambda X: A.symvec(X, UPLO=u))(u), [(M, 'R')], ['linalg'])
     add('vecsym', lambda v: A.vecsym(v) * np.arange(1., 10.).reshape(3, 3), [((6,), 'R')], ['linalg'])
     add('tile:int', lambda x: A.tile(x, 2) * np.arange(1., 7.), [(V, 'R')], ['linalg', 'tile'])
     add('tile:tuple', lambda X: A.tile(X, (2, 1)) * 1.5, [((2, 3), 'R')], ['linalg', 'tile'])
